@@ -3,6 +3,7 @@ mod common;
 mod p_bytes;
 mod p_derived;
 mod p_evo;
+mod p_inputs;
 mod p_iso;
 mod p_misc;
 mod p_tables;
